@@ -138,7 +138,7 @@ def routes_batch(seed, tier, l2, driver, extra_profiles=None, tag="routes", size
         shutil.rmtree(d, ignore_errors=True)
         corpus = sorted(os.path.join(VERIF, "corpus", "l2", f) for f in os.listdir(os.path.join(VERIF, "corpus", "l2"))) \
             if os.path.isdir(os.path.join(VERIF, "corpus", "l2")) else []
-        profiles = extra_profiles or ("opt", "loops", "wide", "tiny", "grid", "grid300", "rewrites")
+        profiles = extra_profiles or ("opt", "loops", "wide", "tiny", "grid", "grid300", "rewrites", "mixedwait")
         cases = corpus + gen.gen_batch(d, seed, sizes["count"], sizes["nq"], profiles=profiles)
         recs = run.run_batch(cases, l2, driver, d + ".out")
         with open(mp + ".tmp", "w") as f:
